@@ -4,7 +4,11 @@
    as the peer sees it AFTER decrypting with its own (independent) RC4; by theorem
    piece_bytes_exact_rc4 the wire bytes for any keystream ks are that stream XOR ks at consecutive
    positions. enc=2 (MSE handshake, plaintext stream selected) is a plain stream for the model.
-   op ::= R:i:b:l | C:i:b:l | D:0 | D:1 | W:k | W:inf
+   header also: q=<queue limit> ll=<request length limit> ei=<0|1> eu=<0|1>  -- the policy PROBED on the
+   implementation (props/c05.py inserts it; defaults 2048 131072 0 0)
+   op ::= R:i:b:l | C:i:b:l | D:0 | D:1 | W:k | W:inf | K (keep-alive tick)
+        | T:on:min:nq:un:uu (throttle state read from the real ThrottleList; inserted by the glue from the
+          implementation's output) | Q:n, A:ms (harness only; ignored here)
    Output: closed=<0|1> n=<stream bytes> md5=<hex> msgs=<C0|C1|P:i:b:l,...|-> snaps=<one per W op;...|-> q=<final queue|-|X>
    snapshot after each W op: <I|M|P>/<choked><send_choked>/<queue length>/<cur i:o:l>[/e<encrypt buffer remaining>:<size_end>]  or X when closed *)
 let rec ipos p = match p with XH -> 1 | XO q -> 2 * ipos q | XI q -> 2 * ipos q + 1
@@ -28,7 +32,13 @@ let parse_op tok = match String.split_on_char ':' tok with
   | ["D"; "1"] -> Decide true
   | ["W"; "inf"] -> WriteReady (n_of_string "1099511627776")
   | ["W"; k] -> WriteReady (n_of_string k)
+  | ["K"] -> KeepaliveTick
+  | ["T"; o; mn; nq; un; uu] -> Throttle { t_on = (o = "1"); t_min = n_of_string mn; t_nq = n_of_string nq;
+                                           t_un = n_of_string un; t_uu = n_of_string uu }
   | _ -> failwith ("op " ^ tok)
+(* Q:<n> (the harness grants quota to the real throttle) and A:<ms> are not model ops: their effect
+   reaches the model through the T: observation the glue inserts before the next W *)
+let is_model_op tok = not (String.length tok > 1 && (tok.[0] = 'Q' || tok.[0] = 'A') && tok.[1] = ':')
 
 let show_piece p = Printf.sprintf "%s:%s:%s" (string_of_n p.p_index) (string_of_n p.p_off) (string_of_n p.p_len)
 
@@ -41,9 +51,18 @@ let snap enc s =
     (if s.choked then 1 else 0) (if s.send_choked then 1 else 0)
     (List.length s.queue) (show_piece s.cur)
     ((if enc && s.ws = WPiece then Printf.sprintf "/e%d:%d" (List.length s.ebuf) (in_ s.eb_end) else "") ^
-     (match s.upc with None -> "/c-r0" | Some i -> Printf.sprintf "/c%dr1" (in_ i)))
+     (match s.upc with None -> "/c-r0" | Some i -> Printf.sprintf "/c%dr1" (in_ i)) ^
+     (if s.tq.t_on then Printf.sprintf "/t%d:%d:%d" (in_ s.tq.t_nq) (in_ s.tq.t_un) (in_ s.tq.t_uu) else ""))
 
 let () = each_line (fun line ->
+  if String.length line >= 6 && String.sub line 0 6 = "PARAMS" then begin
+    (* side conditions of the theorems, evaluated by the extracted params_ok on the probed policy *)
+    let kvs = List.map kv (split_ws line) in
+    let geti k = int_of_string (List.assoc k kvs) in
+    let pol = { qlimit = n_of_int (geti "q"); lenlimit = n_of_int (geti "ll");
+                eager_inv = geti "ei" = 1; eager_unv = geti "eu" = 1 } in
+    if params_ok pol then "PARAMS-OK" else "PARAMS-BAD"
+  end else
   match String.split_on_char '|' line with
   | [hd; ops] ->
       let kvs = List.map kv (split_ws hd) in
@@ -52,19 +71,23 @@ let () = each_line (fun line ->
       let seed = int_of_string (get "seed") and donebits = get "done" in
       let enc = (try List.assoc "enc" kvs = "1" with Not_found -> false) in
       let ks _ = N0 in
+      let geti k d = (try int_of_string (List.assoc k kvs) with Not_found -> d) in
+      let pol = { qlimit = n_of_int (geti "q" 2048); lenlimit = n_of_int (geti "ll" 131072);
+                  eager_inv = geti "ei" 0 = 1; eager_unv = geti "eu" 0 = 1 } in
       let completed i = let j = in_ i in j < String.length donebits && donebits.[j] = '1' in
       let lay = { l_total = n_of_int total; l_plen = n_of_int plen; l_completed = completed } in
       let content i off = byte_tab.(content_byte seed (in_ i * plen + in_ off)) in
       let snaps = ref [] in
       let s = List.fold_left (fun s tok ->
+          if not (is_model_op tok) then s else
           let o = parse_op tok in
-          let s' = step lay content enc ks s o in
+          let s' = step lay content enc ks pol s o in
           (match o with WriteReady _ -> snaps := snap enc s' :: !snaps | _ -> ());
           s') init (split_ws ops) in
       let bytes = Buffer.create 65536 in
       List.iter (fun chunk -> List.iter (fun b -> Buffer.add_char bytes (Char.chr (in_ b))) chunk) (List.rev s.out);
       let md5 = Digest.to_hex (Digest.string (Buffer.contents bytes)) in
-      let ms = List.rev_map (function MChoke c -> if c then "C1" else "C0" | MPiece p -> "P:" ^ show_piece p) s.msgs in
+      let ms = List.rev_map (function MChoke c -> if c then "C1" else "C0" | MPiece p -> "P:" ^ show_piece p | MKeep -> "K") s.msgs in
       Printf.sprintf "closed=%d n=%d md5=%s msgs=%s snaps=%s q=%s"
         (if s.closed then 1 else 0) (Buffer.length bytes) md5
         (if ms = [] then "-" else String.concat "," ms)
